@@ -474,8 +474,7 @@ Proof.
       * rewrite ss_get_set_eq in S1. injection S1 as <-. cbn [ss_used ss_pxys sess_with].
         rewrite wsum_set by assumption. rewrite OW, OT, (Q MP _ _ SC). lia.
       * rewrite ss_get_set_neq in S1 by assumption. apply (Q MP _ _ S1).
-    + assert (RC : exists ranges', True) by (exists []; exact I). clear RC.
-      (* a failure gives every session entry back *)
+    + (* a failure gives every session entry back *)
       unfold y_register in R. destruct (ss_get c (sr_sess s)) as [ct|] eqn:SC; [|discriminate].
       assert (BK : (if 0 <? maxp then (if 0 <? maxp then ss_used ct + weight (q_type q) else ss_used ct) - weight (q_type q)
                     else (if 0 <? maxp then ss_used ct + weight (q_type q) else ss_used ct)) = ss_used ct) by (rewrite LT; lia).
